@@ -144,6 +144,9 @@ def check_direct(V, c, t, plan):
                 else:
                     V.violation('surface:value-at-a-listed-point-next-to-a-default-corner-is-neither-the-listed-value-nor-swamped-by-the-default', dict(detail, got=v, want=want))
             continue
+        if v != v or abs(v) == float('inf'):
+            V.violation('surface:value-not-finite', dict(detail, got=v))
+            continue
         if kind == 'node':
             want = t['values'][extra]
             # barycentric weights carry a rounding error of eps * |x||y| / area (coordinates are large compared with the triangle)
